@@ -136,6 +136,12 @@ def gen(rng, tier, dist):
             add_ring(b, "valid")
         else:
             add_ring(mutate(rng, b)[:96], "mutated")
+    # accepted messages whose blob / string sizes need the upper bytes of the length word
+    for n in BIG_SIZES if tier == "thorough" else rng.sample(BIG_SIZES, 4) + [256]:
+        blob = ("b", n, rand_bytes(rng, n)); i = ("4", rng.getrandbits(32))
+        for tags, args in (("b", [blob]), ("bi", [blob, i]), ("sb", [("s", rand_bytes(rng, n, nonul=True)), blob])):
+            out.append("raw " + hx(enc_spec(gen_addr(rng), tags, args)) + " valid")
+            dist["valid-big"] = dist.get("valid-big", 0) + 1
     # crafted witnesses of the repaired defects (D5)
     add(b"", "witness")
     add(b"/a\0\0,bi\0\xff\xff\xff\xfc", "witness")
